@@ -342,6 +342,14 @@ def replay_failure(ctx, res, f):
                     info["found_input"] = True
                     info["actual_vs_expected"] = rp.get("msg", "")
                     info["replay_cmd"] = rp["cmd"]
+        if not info["found_input"] and o.backend == "kani":
+            fz = kani_run.native_fuzz(f["crate"], f["harness"].name, seed=ctx.seed)
+            info["native_fuzz"] = {k: v for k, v in fz.items() if k != "vals"}
+            if fz.get("status") == "found":
+                info["found_input"] = True
+                info["input_bytes"] = fz["vals"]
+                info["actual_vs_expected"] = fz.get("msg", "")
+                info["replay_cmd"] = fz.get("cmd")
         if not info["found_input"] and res.mod is not None and hasattr(res.mod, "replay"):
             r = res.mod.replay(ctx, res, f)
             if r:
